@@ -31,7 +31,7 @@ Section Vd.
   Proof.
     intros pe strict cfg depth fuel bound st [gi inits nodes outs] st' g' news tr. unfold fold_graph.
     destruct (visit_nodes _ _ _ _ _ _ _ _ _ _ _ _ _ _ _ _ _ _) as [[[[[[st1 ns] inits'] news1] defd] tr1]| | |]; try discriminate.
-    destruct (replace_outputs _ _ _ _ _ _ _ _ _) as [[[st2 ns'] tro]| | |]; try discriminate.
+    destruct (replace_outputs _ _ _ _ _ _ _ _ _ _) as [[[st2 ns'] tro]| | |]; try discriminate.
     intro H; inversion H; subst. cbn. auto.
   Qed.
 
